@@ -5,10 +5,12 @@ usage: tools/eval_seeded.py <PROP> <worktree> [<check ids to run> ...]
 For every <worktree>/_seeded/<name>/ :
   1. in the scratch worktree: apply patch.diff, run the full existing suite (must pass),
      run the demonstration (must fail); revert, run the demonstration (must pass);
-  2. apply the patch to /repo, run the quick checks, restore /repo;
-  3. copy patch, demo and an extended meta.json to /verif/seeded/<PROP>-<name>/.
+  2. apply the patch to the repository (VERIF_REPO, default /repo), run the quick checks, restore it;
+  3. copy patch, demo and an extended meta.json to <SEEDED_OUT or this tree's seeded>/<PROP>-<name>/.
 """
 import json, os, shutil, subprocess, sys, glob
+ROOT = os.path.dirname(os.path.dirname(os.path.abspath(__file__)))
+SEEDED_OUT = os.environ.get("SEEDED_OUT") or os.path.join(ROOT, "seeded")
 
 def sh(cmd, cwd=None, env=None, timeout=3600):
     p = subprocess.run(cmd, shell=True, cwd=cwd, env=env, stdout=subprocess.PIPE, stderr=subprocess.STDOUT, text=True, timeout=timeout)
@@ -52,7 +54,7 @@ def main():
             res["demo_passes_without_patch"] = "test result: ok" in out2
         sh("rm -f tests/demo_seeded.rs && git checkout -- .", cwd=wt)
         # run the checks against the patch applied to /repo
-        rc, out = sh(f"/verif/tools/try_patch.sh {patch} {' '.join(checks)}", cwd="/verif")
+        rc, out = sh(f"{ROOT}/tools/try_patch.sh {patch} {' '.join(checks)}", cwd=ROOT)
         res["checks"] = {}
         cur = None
         for line in out.splitlines():
@@ -65,7 +67,7 @@ def main():
         res["confirmed"] = confirmed
         print(json.dumps({k: res[k] for k in ("name", "suite_passes_with_patch", "demo_fails_with_patch", "demo_passes_without_patch", "caught_by")}))
         if confirmed:
-            dst = f"/verif/seeded/{prop}-r2-{name}" if "/wt2/" in wt else f"/verif/seeded/{prop}-{name}"
+            dst = f"{SEEDED_OUT}/{prop}-r2-{name}" if "/wt2/" in wt else f"{SEEDED_OUT}/{prop}-{name}"
             os.makedirs(dst, exist_ok=True)
             shutil.copy(patch, os.path.join(dst, "patch.diff"))
             shutil.copy(demo, os.path.join(dst, os.path.basename(demo)))
